@@ -20,10 +20,12 @@ against Val_Trace; decimals and ints of all magnitudes are driven from Python
 (shape by the real scanner: one decimal / int token, optional minus; exact
 round trip of the bits).
 """
+import hashlib
 import math
 import random
 
 from .common import MachineryError
+from .tla import run_tlc
 from . import valmodel as M
 from .valmodel import V
 from .c06 import Ctx, build_universe, lit_key
@@ -225,6 +227,195 @@ def check_identifier_keys(cx):
                                             f"expected the value of {want}", {"kind": "prog", "src": src})
 
 
+# ------------------------------------------------- numbers made by natives
+def number_leaves(w, path=""):
+    """the ints and decimals inside what a native returned"""
+    if isinstance(w, (V.ValueInt, V.ValueDecimal)):
+        yield path, w
+    elif isinstance(w, V.ValueList):
+        for i, x in enumerate(w.value):
+            yield from number_leaves(x, f"{path}[{i}]")
+    elif isinstance(w, V.ValueSet):
+        for x in w.getSortedItems():
+            yield from number_leaves(x, path + "<<>>")
+    elif isinstance(w, V.ValueMap):
+        for k in w.getSortedKeys():
+            yield from number_leaves(k, path + "<<<key>>>")
+            yield from number_leaves(w.value[k], f"{path}[{k}]")
+
+
+def check_made_number(cx, src, w, where=""):
+    """a value that says it is an int (a decimal) renders as an integer
+    numeral (a numeral with a fractional part), and its text evaluates to a
+    value equal to it, of the same type, that renders to the same text -
+    whichever native made it.  The verdict goes by the value's own type()."""
+    typ = w.type()
+    key = (src if len(src) <= 80 else src[:64] + "~" + hashlib.sha1(src.encode()).hexdigest()[:8]) + where
+    case = {"kind": "maker", "src": src}
+    t = render(w)
+    cx.n_eval += 1
+    if t[0] != "val":
+        cx.vio(f"maker-render:{key}", f"host-exception: rendering the {typ} that {src} returned raised {t[1]}", case)
+        return
+    txt = t[1]
+    try:
+        toks = M.lex(txt)
+    except Exception as e:  # noqa: BLE001
+        toks = [("unscannable", type(e).__name__)]
+    kinds = [k for k, _ in toks]
+    neg = txt.startswith("-")
+    body = txt[1:] if neg else txt
+    if typ == "int":
+        ok = (kinds == (["operator", "int"] if neg else ["int"]) and toks[-1][1] == body and body.isdigit()
+              and body.isascii())
+        if not ok:
+            cx.vio(f"maker-int-numeral:{key}", f"shape: {src} returned a value of type int{where and ' at ' + where} that "
+                                               f"renders as {txt!r} (host payload {type(w.value).__name__}): not an "
+                                               f"integer numeral", case)
+            return
+    else:
+        ip, _, fp = body.partition(".")
+        ok = (kinds == (["operator", "decimal"] if neg else ["decimal"]) and toks[-1][1] == body
+              and ip.isdigit() and fp.isdigit() and ip.isascii() and fp.isascii())
+        if not ok:
+            cx.vio(f"maker-decimal-numeral:{key}", f"shape: {src} returned a value of type decimal{where and ' at ' + where} "
+                                                   f"that renders as {txt!r}: not a numeral with a fractional part", case)
+            return
+    o = cx.im.run(txt)
+    cx.n_eval += 1
+    if o[0] != "val":
+        cx.vio(f"maker-round-trip:{key}", f"round-trip: the text {txt[:60]!r} of the {typ} that {src} returned does not "
+                                          f"evaluate: {o[0]} {str(o[1])[:80]}", case)
+        return
+    back = o[1]
+    same = M.host(lambda: (back.type() == typ, bool(back == w), str(back) == txt))
+    if same[0] != "val" or same[1] != (True, True, True):
+        cx.vio(f"maker-round-trip:{key}", f"round-trip: the text {txt[:60]!r} of the {typ} that {src} returned evaluates "
+                                          f"to {str(back)[:60]} ({back.type()}); same type / equal / same text = "
+                                          f"{same[1] if same[0] == 'val' else same}", case)
+
+
+def maker_source(op, a):
+    if op == "find":
+        return f"find({M.literal(a)}, {M.literal(a['items'][-1])})"
+    return f"{op}({M.literal(a)})"
+
+
+def check_model_makers(cx, u, res):
+    """binding A for ValLaws!Make: every native of MakerOps on every value of
+    the universe the model defines it for"""
+    rows = {r["i"]: r for r in res.records("MK")}
+    if sorted(rows) != list(range(1, u["n"] + 1)):
+        raise MachineryError("ValLaws MK export incomplete")
+    n = 0
+    kinds = {"int": "int", "dec": "decimal"}
+    for i in range(1, u["n"] + 1):
+        a = u["v"][i]
+        for m in rows[i]["mk"]:
+            if not m["ok"]:
+                continue
+            src = maker_source(m["op"], a)
+            o = cx.im.run(src)
+            cx.n_eval += 1
+            n += 1
+            if o[0] != "val":
+                cx.run.drift("maker-does-not-return", {"src": src, "got": str(o)[:120]})
+                continue
+            w = o[1]
+            if w.type() not in ("int", "decimal"):
+                cx.run.drift("maker-kind-differs", {"src": src, "model": m["k"], "impl": w.type()})
+                continue
+            check_made_number(cx, src, w)
+            if w.type() != kinds[m["k"]]:
+                cx.run.drift("maker-kind-differs", {"src": src, "model": m["k"], "impl": w.type()})
+            elif m["val"]:
+                want = M.build(m["v"], cx.im.refs)
+                eq = M.host(lambda: bool(want == w))
+                if eq != ("val", True):
+                    cx.run.drift("maker-result-differs", {"src": src, "model": M.literal(m["v"]), "impl": str(w)[:60]})
+                elif str(w) != M.text(m["txt"]) and M.literal(m["v"]) not in ("0.0", "-0.0"):
+                    cx.run.drift("maker-text-differs", {"src": src, "model": M.text(m["txt"]), "impl": str(w)[:60]})
+    for m in rows[1]["nullary"]:
+        src = m["op"] + "()"
+        o = cx.im.run(src)
+        cx.n_eval += 1
+        n += 1
+        if o[0] != "val":
+            cx.run.drift("maker-does-not-return", {"src": src, "got": str(o)[:120]})
+            continue
+        if o[1].type() != kinds[m["k"]]:
+            cx.run.drift("maker-kind-differs", {"src": src, "model": m["k"], "impl": o[1].type()})
+        if o[1].type() in ("int", "decimal"):
+            check_made_number(cx, src, o[1])
+    return n
+
+
+# programs whose results hold numbers that natives, operators and the bundled modules manufacture (outside the
+# argument universe of the model): every int / decimal in the result is judged by check_made_number
+MAKER_PROGRAMS = [
+    "timestamp()", "length('abc')", "length([1, 2])", "length(<<<1 => 2>>>)", "length(range(5))", "int('12')",
+    "int('-7')", "int(2.5)", "int(-2.5)", "int(TRUE)", "int(date('20240115'))", "decimal('1.5')", "decimal('2')",
+    "decimal(TRUE)", "decimal(date('20240115120000'))", "find('abc', 'c')", "find('abc', 'x')", "find([1, 2, 3], 3)",
+    "find_last('abcabc', 'c')", "find_last([1, 2, 1], 1)", "count([1, 2, 1], 1)", "count('abab', 'a')",
+    "date('20240115') - date('20240101')", "date('20240115120000') - date('20240101')", "date('20240115') - 1.5",
+    "7 / 2", "7 / 2.0", "-7 / 2", "7 % 2", "7.5 % 2", "2 * 3", "2 * 3.0", "1 - 3", "1 - 3.5", "div(7, 2)", "mod(7, 2)",
+    "bit_and(12, 10)", "bit_or(12, 10)", "bit_xor(12, 10)", "bit_not(12)", "bit_shift_left(1, 31)",
+    "bit_shift_right(-1, 1)", "bit_rotate_left(1, 33)", "bit_rotate_right(1, 1)",
+    "require Math; [Math->pow(2, 10), Math->pow(2, -1), Math->pow(2.0, 3), Math->pow(2, 0.5)]",
+    "require Math; [Math->sqrt(16), Math->exp(0), Math->log(1), Math->PI, Math->E]",
+    "require Math; [Math->sin(0), Math->cos(0), Math->atan2(0, 1)]",
+    "parse_json('[1, -2, 1.5, 1e2, 1E-2, 12345678901234567890, 0.1, -0.0, 1.0]')", "parse_json('{\"a\": 1, \"b\": 2.0}')",
+    "parse('12')", "eval('1 + 2')", "eval('1.5 + 2')", "range(3)", "range(1, 4)", "range(5, 1, -2)", "enumerate(['a', 'b'])",
+    "[int(x) for x in [1.0, '2', TRUE, 3]]", "[decimal(x) for x in [1, '2', TRUE, 3.5]]",
+    "sum([1, 2, 3])", "sum([1, 2.5])", "sum([])", "sum([1.5, 1.5])", "min([3, 1.5])", "max([3, 1.5])",
+    "require List; [List->prod([2, 3]), List->prod([2.0, 3]), List->reduce([1, 2, 3], fn(a, b) a + b)]",
+    "require Stat; [Stat->mean([1, 2]), Stat->mean([1, 3]), Stat->median([1, 2]), Stat->median([1, 3, 5]), "
+    "Stat->median_low([1, 2]), Stat->median_high([1, 2])]",
+    "require Random; Random->set_seed(3); [Random->random(10), Random->random(), Random->random(1000000)]",
+    "set_seed(1)", "sign(-2.5)", "sign(0)", "abs(-3)", "abs(-2.5)", "floor(2.5)", "ceiling(2.5)", "round(2.5)", "round(2.567, 2)",
+    "round(1234, -2)", "floor(7)", "ceiling(-7)", "floor(9007199254740993)", "ceiling(9007199254740993)",
+    "round(9007199254740993)", "decimal(9007199254740993)", "decimal(12345678901234567890123)",
+    "round(12345678901234567890)", "int(9007199254740993.0)", "int(1234567890123456789012.0)",
+    "1000000 * 1000000 * 1000000", "9007199254740993 + 0.0", "9007199254740993 * 1.0", "9007199254740992 / 1.0",
+    "string_length('abc')", "ord('a')", "char_code('a')", "length(split('a b c'))", "length(chunks([1, 2, 3], 2))",
+    "process_lines(str_input('a\\nb'), fn(l) 1)", "length(lines('a\\nb'))",
+]
+
+
+def check_maker_programs(cx):
+    n = 0
+    for src in MAKER_PROGRAMS:
+        o = cx.im.run(src)
+        cx.n_eval += 1
+        if o[0] != "val":
+            continue                      # not defined in this build / an error: nothing was made
+        for where, w in number_leaves(o[1]):
+            check_made_number(cx, src, w, where)
+            n += 1
+    return n
+
+
+def check_made_from_magnitudes(cx, xs, ints):
+    """the rounding natives on decimals of all magnitudes, decimal() on ints of all magnitudes"""
+    n = 0
+    for x in xs:
+        lit = str(V.ValueDecimal(x))
+        for op in ("floor", "ceiling", "round", "int", "abs"):
+            o = cx.im.run(f"{op}({lit})")
+            cx.n_eval += 1
+            if o[0] == "val" and o[1].type() in ("int", "decimal"):
+                check_made_number(cx, f"{op}({lit})", o[1])
+                n += 1
+    for m in ints:
+        for op in ("decimal", "floor", "round", "abs"):
+            o = cx.im.run(f"{op}({m})")
+            cx.n_eval += 1
+            if o[0] == "val" and o[1].type() in ("int", "decimal"):
+                check_made_number(cx, f"{op}({m})", o[1])
+                n += 1
+    return n
+
+
 # -------------------------------------------------------- numbers by Python
 def magnitudes(rng, n):
     xs = [0.0, -0.0, 1.0, -1.0, 0.1, 1e16, 1e15, 9999999999999998.0, 1e-5, 1e-4, 0.0001, 1e22, 1e23, 1e100,
@@ -396,8 +587,9 @@ def run(run):
     quick = run.tier == "quick"
     rng = random.Random(run.seed)
     cx = Ctx(run)
-    u = M.load_universe(run, "ValLaws_c08_quick" if quick else "ValLaws_c08_thorough",
-                        "ValLaws: text form laws over the universe and the quote/scan machine")
+    res_u = run_tlc("ValLaws", "ValLaws_c08_quick" if quick else "ValLaws_c08_thorough", coverage=False, timeout=3000)
+    u = M.load_universe(run, None, "ValLaws: text form laws over the universe, the quote/scan machine and the "
+                                   "natives that make numbers", res_u)
     n = u["n"]
     seen_txt = {}
     nvals = 0
@@ -443,12 +635,18 @@ def run(run):
         check_int(cx, m)
     run.sample({"DECIMAL": {"value": repr(xs[5]), "text": str(V.ValueDecimal(xs[5]))[:40]}})
 
+    # numbers that natives make: the model's Make table, programs outside it, all magnitudes
+    n_mk = check_model_makers(cx, u, res_u)
+    n_mp = check_maker_programs(cx)
+    n_mm = check_made_from_magnitudes(cx, xs if quick else xs[:4000], ints if quick else ints[:2000])
+    run.sample({"MAKER": {"src": "floor(2.5)", "model": "VDec(2, 1) -> 2.0", "impl": str(cx.im.run("floor(2.5)")[1])}})
+
     evs = binding_b(cx, rng, 1200 if quick else 40000)
     if evs:
         e = evs[len(evs) // 2]
         run.sample({"TRACE": {"v": M.literal(e["v"]), "toks": _toks(e["toks"])[:200], "rtok": e["rtok"],
                               "same": e["same"], "cons": e["cons"]}})
-    total = nvals + len(fx) + len(xs) + len(ints) + len(evs) + len(REP_CASES) + len(MIXED_CASES)
+    total = nvals + len(fx) + len(xs) + len(ints) + len(evs) + len(REP_CASES) + len(MIXED_CASES) + n_mk + n_mp + n_mm
     run.cov["traces_validated_against_impl"] = total
     run.cov["evaluations"] = cx.n_eval + cx.im.n
     run.cov["distinct_nontrivial"] = total
@@ -458,7 +656,8 @@ def run(run):
     run.cov["exhaustive"] = True
     run.cov["universe"] = n
     run.cov["bounds"] = {"universe": n, "fixed": len(fx), "decimals": len(xs), "ints": len(ints),
-                         "random_values": len(evs)}
+                         "random_values": len(evs), "model_maker_calls": n_mk, "maker_program_numbers": n_mp,
+                         "maker_calls_on_magnitudes": n_mm}
     run.assumptions += [
         "blanks outside string and pattern literals are not compared (recorded as drift when they differ)",
         "the enumeration order of a set / map with elements of different kinds (or of patterns, sets, maps) is not "
@@ -472,6 +671,9 @@ def run(run):
         "decimals >= 10^8 whose exact digits differ from the host's shortest digits (more than 16 significant "
         "digits) are not sent to the model; they go through the Python-driven magnitude check",
         "dates are not data values: only (i) and (ii) are compared for them",
+        "numbers made by natives are judged by their own type(): int -> integer numeral, decimal -> numeral with a "
+        "fraction, and the round trip of the text; a result whose kind or value differs from ValLaws!Make is drift "
+        "(what a native computes is not C08's subject)",
     ]
 
 
@@ -503,3 +705,8 @@ def replay(run, case):
     elif k == "prog":
         check_date_difference(cx)
         check_identifier_keys(cx)
+    elif k == "maker":
+        o = cx.im.run(case["src"])
+        if o[0] == "val":
+            for where, w in number_leaves(o[1]):
+                check_made_number(cx, case["src"], w, where)
